@@ -40,6 +40,9 @@ CLAIMED["C07"] = dict(tech="property-based testing (rapid): differential between
 CLAIMED["C05"] = dict(tech="property-based testing (rapid) against a math/big restriction evaluator, plus an enumerated membership product for enum/bits/identityref/union",
       text="Generated-input search: range restrictions on every numeric base (alternatives, single values, min/max, negative and 64-bit bounds, decimal64) and length/pattern restrictions on strings, derived through 0-2 narrowing typedef levels, on leaves and leaf-lists; candidates are the boundaries of every level and their neighbours; written through Set, SetValue, Upsert/Insert/Update from JSON, Upsert from XML and from another node, into the reference store and a map-backed Reflect. Accepted iff the harness evaluator says the value is inside every level and matches every (anchored) pattern; a rejected write returns an error and leaves the leaf unchanged. Membership of enumeration, bits, identityref and union leaves is enumerated as a full product of values x paths.",
       note="Patterns come from a regex subset on which XSD and RE2 agree. One open known finding (several patterns are OR-ed; pinned by the suite). Whether the base identity itself is acceptable is not asserted.", ref="7 C05")
+CLAIMED["C16"] = dict(tech="property-based testing (rapid) with a math/big / string comparison oracle over generated operand values around the literal",
+      text="Generated-input search: '<leaf> <op> <literal>' with operand leaves of every integer width, decimal64, string, boolean and enumeration, all six operators, operand unset / equal / neighbouring / random (unsigned and 64-bit extremes), placed as when on container, leaf, list, uses and augment (reads and upserts), as where= on a list and as filter= on a notification stream fed by a harness event node. Visibility, written-ness, kept rows and delivered events must equal the oracle's verdict; an unset operand makes the comparison false.",
+      note="Evaluation context as the repository's tests pin it (container: itself, leaf: its parent). Edit cases keep the operand identical in source and target. Negative and > int64 literals are written quoted (the XPath subset has no signed number token).", ref="7 C16")
 NOT_YET = {}
 props = [json.loads(l) for l in open(os.path.join(ROOT, "properties.jsonl"))]
 checks, na = [], []
